@@ -284,10 +284,12 @@ const (
 )
 
 func c52Check(id string, typ uint32, class int, lens []int, maxCount, maxPts int) {
-	n := lens[nd.Pick("nSel", len(lens))]
-	buf := nd.Bytes("buf", n)
-	big := nd.Bool("isBig")
-	srid := nd.Uint32("srid")
+	// nd names are unique per harness
+	pfx := id + [...]string{".c.", ".t.", ".a."}[class]
+	n := lens[nd.Pick(pfx+"nSel", len(lens))]
+	buf := nd.Bytes(pfx+"buf", n)
+	big := nd.Bool(pfx + "isBig")
+	srid := nd.Uint32(pfx + "srid")
 
 	want := c52Ref{max: maxCount, maxPts: maxPts}
 	wantLen, st := want.walk(typ, buf, big)
@@ -321,8 +323,8 @@ func c52Check(id string, typ uint32, class int, lens []int, maxCount, maxPts int
 // ---- headers ----------------------------------------------------------------
 
 func VerifC52HeaderEWKB() {
-	n := [...]int{0, 1, 4, 5, 8, 9, 10, 25}[nd.Pick("nSel", 8)]
-	buf := nd.Bytes("buf", n)
+	n := [...]int{0, 1, 4, 5, 8, 9, 10, 25}[nd.Pick("c52.ewkb.nSel", 8)]
+	buf := nd.Bytes("c52.ewkb.buf", n)
 	srid, big, typ, err := DeserializeEWKBHeader(buf)
 	nd.Reach("c52.header.ewkb")
 	nd.Observe(n, srid, big, typ, err == nil)
@@ -336,8 +338,8 @@ func VerifC52HeaderEWKB() {
 }
 
 func VerifC52HeaderWKB() {
-	n := [...]int{0, 1, 4, 5, 6, 21}[nd.Pick("nSel", 6)]
-	buf := nd.Bytes("buf", n)
+	n := [...]int{0, 1, 4, 5, 6, 21}[nd.Pick("c52.wkb.nSel", 6)]
+	buf := nd.Bytes("c52.wkb.buf", n)
 	big, typ, err := DeserializeWKBHeader(buf)
 	nd.Reach("c52.header.wkb")
 	nd.Observe(n, big, typ, err == nil)
@@ -379,10 +381,10 @@ func VerifC52ParseLineTruncated() {
 }
 
 func VerifC52ParsePoly() {
-	c52Check("c52.poly", WKBPolyID, c52NotTruncated, c52PolyLens, nd.Bound(3, 5), nd.Bound(3, 8))
+	c52Check("c52.poly", WKBPolyID, c52NotTruncated, c52PolyLens, nd.Bound(3, 4), nd.Bound(3, 5))
 }
 func VerifC52ParsePolyTruncated() {
-	c52Check("c52.poly", WKBPolyID, c52OnlyTruncated, c52PolyLens, nd.Bound(3, 5), nd.Bound(3, 8))
+	c52Check("c52.poly", WKBPolyID, c52OnlyTruncated, c52PolyLens, nd.Bound(3, 4), nd.Bound(3, 5))
 }
 
 func VerifC52ParseMPoint() {
@@ -393,24 +395,24 @@ func VerifC52ParseMPointTruncated() {
 }
 
 func VerifC52ParseMLine() {
-	c52Check("c52.mline", WKBMultiLineID, c52NotTruncated, c52MLineLens, nd.Bound(3, 5), nd.Bound(3, 8))
+	c52Check("c52.mline", WKBMultiLineID, c52NotTruncated, c52MLineLens, nd.Bound(3, 4), nd.Bound(3, 5))
 }
 func VerifC52ParseMLineTruncated() {
-	c52Check("c52.mline", WKBMultiLineID, c52OnlyTruncated, c52MLineLens, nd.Bound(3, 5), nd.Bound(3, 8))
+	c52Check("c52.mline", WKBMultiLineID, c52OnlyTruncated, c52MLineLens, nd.Bound(3, 4), nd.Bound(3, 5))
 }
 
 func VerifC52ParseMPoly() {
-	c52Check("c52.mpoly", WKBMultiPolyID, c52NotTruncated, c52MPolyLens, nd.Bound(2, 4), nd.Bound(3, 8))
+	c52Check("c52.mpoly", WKBMultiPolyID, c52NotTruncated, c52MPolyLens, nd.Bound(2, 3), nd.Bound(3, 4))
 }
 func VerifC52ParseMPolyTruncated() {
-	c52Check("c52.mpoly", WKBMultiPolyID, c52OnlyTruncated, c52MPolyLens, nd.Bound(2, 4), nd.Bound(3, 8))
+	c52Check("c52.mpoly", WKBMultiPolyID, c52OnlyTruncated, c52MPolyLens, nd.Bound(2, 3), nd.Bound(3, 4))
 }
 
 func VerifC52ParseGeomColl() {
-	c52Check("c52.geomcoll", WKBGeomCollID, c52NotTruncated, c52CollLens, nd.Bound(2, 4), nd.Bound(3, 8))
+	c52Check("c52.geomcoll", WKBGeomCollID, c52NotTruncated, c52CollLens, nd.Bound(2, 3), nd.Bound(3, 3))
 }
 func VerifC52ParseGeomCollTruncated() {
-	c52Check("c52.geomcoll", WKBGeomCollID, c52OnlyTruncated, c52CollLens, nd.Bound(2, 4), nd.Bound(3, 8))
+	c52Check("c52.geomcoll", WKBGeomCollID, c52OnlyTruncated, c52CollLens, nd.Bound(2, 3), nd.Bound(3, 3))
 }
 
 // ---- round trip ---------------------------------------------------------------
@@ -470,28 +472,28 @@ func c52RoundTrip(id string, typ uint32, g GeometryValue, srid uint32) {
 }
 
 func VerifC52RoundTripPoint() {
-	srid := nd.Uint32("srid")
-	c52RoundTrip("c52.roundtrip.point", WKBPointID, c52Pt("p", srid), srid)
+	srid := nd.Uint32("c52.rt.point.srid")
+	c52RoundTrip("c52.roundtrip.point", WKBPointID, c52Pt("c52.rt.point.p", srid), srid)
 }
 
 func VerifC52RoundTripLine() {
-	srid := nd.Uint32("srid")
-	k := nd.IntRange("k", 2, nd.Bound(3, 5))
-	c52RoundTrip("c52.roundtrip.line", WKBLineID, LineString{SRID: srid, Points: c52Pts("p", k, srid)}, srid)
+	srid := nd.Uint32("c52.rt.line.srid")
+	k := nd.IntRange("c52.rt.line.k", 2, nd.Bound(3, 5))
+	c52RoundTrip("c52.roundtrip.line", WKBLineID, LineString{SRID: srid, Points: c52Pts("c52.rt.line.p", k, srid)}, srid)
 }
 
 func VerifC52RoundTripPoly() {
-	srid := nd.Uint32("srid")
-	rings := nd.IntRange("rings", 1, 2)
+	srid := nd.Uint32("c52.rt.poly.srid")
+	rings := nd.IntRange("c52.rt.poly.rings", 1, 2)
 	lines := make([]LineString, rings)
 	for i := range lines {
-		lines[i] = LineString{SRID: srid, Points: c52Pts(c52Name("r", i), 4, srid)}
+		lines[i] = LineString{SRID: srid, Points: c52Pts(c52Name("c52.rt.poly.r", i)+".", 4, srid)}
 	}
 	c52RoundTrip("c52.roundtrip.poly", WKBPolyID, Polygon{SRID: srid, Lines: lines}, srid)
 }
 
 func VerifC52RoundTripMPoint() {
-	srid := nd.Uint32("srid")
-	k := nd.IntRange("k", 1, nd.Bound(2, 4))
-	c52RoundTrip("c52.roundtrip.mpoint", WKBMultiPointID, MultiPoint{SRID: srid, Points: c52Pts("p", k, srid)}, srid)
+	srid := nd.Uint32("c52.rt.mpoint.srid")
+	k := nd.IntRange("c52.rt.mpoint.k", 1, nd.Bound(2, 4))
+	c52RoundTrip("c52.roundtrip.mpoint", WKBMultiPointID, MultiPoint{SRID: srid, Points: c52Pts("c52.rt.mpoint.p", k, srid)}, srid)
 }
